@@ -38,6 +38,7 @@ U64 = 1 << 64
 
 KEY_D26 = "D26:read_binary-silent-wrap"
 KEY_XKEY = "xattr-key:equals-sign-not-escaped"
+KEY_OLD256 = "old-sparse:base256-entry-ends-map"
 MAX_PER_CLASS = 5
 _class_count = {}
 
@@ -318,18 +319,23 @@ KEY_D22 = "D22:sparse-data-exceeds-record"
 
 
 def classify_reader_batch(ctx, op, items, stats):
-    """items = [(line, impl_out)] where impl differs from the repaired model: is it an unrepaired reader?  (r, k, d) = (D22 sparse bound
-    repaired, xattrs appended, SCHILY keys un-escaped).  Reports the matching known findings; returns one bool per item (False: no
-    variant of the unrepaired code explains the output)."""
-    variants = [("0", "0", "1"), ("1", "0", "0"), ("0", "0", "0")]
+    """items = [(line, impl_out)] where impl differs from the repaired model: is it an unrepaired reader?  (r, k, d, o) = (D22 sparse bound
+    repaired, xattrs appended, SCHILY keys un-escaped, base-256 entries of an old GNU sparse map read).  Reports the matching known
+    findings; returns one bool per item (False: no variant of the unrepaired code explains the output)."""
+    variants = [("0", "0", "1", "1"), ("1", "0", "0", "1"), ("0", "0", "0", "1"), ("1", "0", "1", "0")]
     if not items:
         return []
-    outs = run_model(ctx, ["%sx %s %s %s %s" % (op, r, k, d, line.rsplit(" ", 1)[1]) for line, _ in items for r, k, d in variants])
+    outs = run_model(ctx, ["%sx %s %s %s %s %s" % (op, r, k, d, o, line.rsplit(" ", 1)[1]) for line, _ in items for r, k, d, o in variants])
     res = []
     for n, (line, impl_out) in enumerate(items):
         hit = False
-        for m, (r, k, d) in enumerate(variants):
+        for m, (r, k, d, o) in enumerate(variants):
             if outs[n * len(variants) + m] == impl_out:
+                if o == "0":
+                    stats["known_old256_seen"] = stats.get("known_old256_seen", 0) + 1
+                    ctx.violation(KEY_OLD256, "read_header takes an old GNU sparse map entry whose offset or size is a base-256 number (8 GiB and more, as "
+                                  "GNU tar writes them) for the end of the list: the rest of the map is dropped, the file is stored with zeros instead "
+                                  "of the data of the dropped regions (%s)" % impl_out[-160:], {"unit": [line]})
                 if d == "0":
                     stats["known_xkey_seen"] = stats.get("known_xkey_seen", 0) + 1
                     ctx.violation(KEY_XKEY, "read_header takes a SCHILY.xattr key verbatim: \"%%3D\"/\"%%25\" as written by GNU tar (and by the repaired "
@@ -793,20 +799,22 @@ def spec_expand(m, real, data):
 def sparse_member(rng, name, m, real, data, dialect):
     """one sparse file in the chosen dialect -> bytes"""
     if dialect == "old":
+        def num(v):                                           # GNU tar: octal with terminator below 8^11 (8 GiB), base-256 from there on
+            return encnum(v, 12, "b256") if v >= 8 ** 11 else encnum(v, 12, "term")
         tail = bytearray(167)                                 # gnu tail: atime(12) ctime(12) offset(12) deprecated(4) unused(1) sparse[4](96) isext(1) realsize(12)
         ents = m[:4]
         for i, (o, c) in enumerate(ents):
-            tail[41 + 24 * i:41 + 24 * i + 12] = encnum(o, 12, "term")
-            tail[41 + 24 * i + 12:41 + 24 * i + 24] = encnum(c, 12, "term")
+            tail[41 + 24 * i:41 + 24 * i + 12] = num(o)
+            tail[41 + 24 * i + 12:41 + 24 * i + 24] = num(c)
         rest = m[4:]
         tail[137] = 1 if rest else 0
-        tail[138:150] = encnum(real, 12, "term")
+        tail[138:150] = num(real)
         out = mk_header(name=name, size=len(data), typeflag=b"S", dialect="gnu", tail=bytes(tail), mtime=1542905892)
         while rest:
             blk = bytearray(512)
             for i, (o, c) in enumerate(rest[:21]):
-                blk[24 * i:24 * i + 12] = encnum(o, 12, "term")
-                blk[24 * i + 12:24 * i + 24] = encnum(c, 12, "term")
+                blk[24 * i:24 * i + 12] = num(o)
+                blk[24 * i + 12:24 * i + 24] = num(c)
             rest = rest[21:]
             blk[504] = 1 if rest else 0
             out += bytes(blk)
@@ -982,6 +990,19 @@ def gen_reader_member(rng):
         ])
         h = mk_header(name=b"pax/x", size=len(body), typeflag=b"x", dialect="ustar") + pad512(body)
         return h + mk_header(name=b"member", size=3, dialect="ustar") + pad512(b"abc"), None, "pax-malformed"
+    if r < 0.97 and rng.random() < 0.12:                      # old GNU sparse map of a file larger than 8 GiB: header decode only
+        n = rng.choice([2, 3, 4, 5, 8, 25, 30])
+        k = rng.randrange(n)                                  # entries from index k on lie beyond 8 GiB
+        off, m = 0, []
+        for i in range(n):
+            off += rng.choice([0, 512, 4096, 1 << 20]) + ((8 ** 11 + rng.choice([0, 0, 4096, 1 << 36])) if i == k else 0)
+            c = rng.choice([1, 512, 612, 1000])
+            m.append((off, c)); off += c
+        real = off + rng.choice([0, 100])
+        data = bytes(rng.randrange(1, 256) for _ in range(sum(c for _, c in m)))
+        name = gen_name(rng, 7)
+        exp = dict(name=name, size=real, tf=b"0", sparse=m, data=None, uid=0, gid=0, mtime=1542905892, link=b"", perm=0o644, maj=0, min=0)
+        return sparse_member(rng, name, m, real, data, "old"), exp, "sparse-old-big"
     if r < 0.97:                                              # sparse files
         wf = rng.random() < 0.75
         m, real, data = gen_sparse_map(rng, wf)
@@ -1139,7 +1160,10 @@ def unit_reader(ctx, harness, stats):
     archives = []
     for _ in range(400 if ctx.quick() else 6000):
         k = rng.randint(1, 5)
-        ms = [gen_reader_member(rng) for _ in range(k)]
+        # (the models expand a file into a list: nothing of 8 GiB through `iter`)
+        ms = [m for m in (gen_reader_member(rng) for _ in range(k)) if m[2] != "sparse-old-big"]
+        if not ms:
+            continue
         if rng.random() < 0.7:
             ms = [m for m in ms if m[1] is not None or m[2].startswith("sparse")] or ms
         body = b"".join(m[0] for m in ms)
@@ -1680,10 +1704,10 @@ def noskip_verdict(ctx, tools, d, tag, arc, flags):
     return None
 
 
-def big_sparse_verdict(ctx, tools, d, tag, dialect, salt=0):
-    """a sparse member with data regions before, across and after the 4 GiB mark; None if the image holds exactly the expansion"""
+def big_sparse_verdict(ctx, tools, d, tag, dialect, salt=0, G=1 << 32):
+    """a sparse member with data regions before, across and after the mark G (4 GiB; 8 GiB = 8^11 for the old GNU dialect, from where
+    on GNU tar writes the map entries as base-256 numbers); None if the image holds exactly the expansion"""
     import random, subprocess
-    G = 1 << 32
     m = [(0, 512), (G - 512, 1024), (G + 4096 + 512 * (salt % 7), 512)]
     real = m[-1][0] + 512 + 100 + salt % 50
     data = bytes((i * 7 + salt) % 251 + 1 for i in range(2048))                  # no zero byte: holes and data are distinguishable
@@ -1785,6 +1809,20 @@ def tool_option_probes(ctx, harness, stats):
         if msg:
             stats["disagreements_checked"] += 1
             report(ctx, "bigsparse", "sparse-4GiB:" + dialect, msg, {"optprobe": {"kind": "big-sparse", "dialect": dialect, "salt": salt}})
+    # … and the old GNU dialect around 8 GiB = 8^11, where GNU tar switches to base-256 numbers in the map (a real `tar --format=gnu -S`
+    # archive of such a file has exactly this header)
+    salt = rng.randrange(1 << 30)
+    msg = big_sparse_verdict(ctx, tools, d, "8g", "old", salt, G=1 << 33)
+    seen["big_sparse_cases"] += 1
+    stats["evaluations"] += 2
+    if msg:
+        stats["disagreements_checked"] += 1
+        if "wrong content" in msg:
+            stats["known_old256_seen"] = stats.get("known_old256_seen", 0) + 1
+            ctx.violation(KEY_OLD256, "tar2sqfs drops the regions of an old GNU sparse map from the first base-256 entry on (offsets of 8 GiB and more, as "
+                          "GNU tar writes them): exit 0, " + msg, {"optprobe": {"kind": "big-sparse", "dialect": "old", "salt": salt, "G": 1 << 33}})
+        else:
+            report(ctx, "bigsparse", "sparse-8GiB:old", msg, {"optprobe": {"kind": "big-sparse", "dialect": "old", "salt": salt, "G": 1 << 33}})
     # (d) archives that end inside a member (no end marker): tar2sqfs must fail.  Since /repo 1ef571c this includes the padding
     # of the last member / of an extension record and skipped data (`sqfs_istream_skip` reports the early end)
     f5 = mk_header(name=b"f", size=5, mtime=1542905892, dialect="ustar") + pad512(b"hello")
@@ -2301,7 +2339,7 @@ def replay(ctx, path):
         tools = {t: ctx.build_tool(t) for t in ("tar2sqfs", "rdsquashfs", "sqfs2tar")}
         o = rp["optprobe"]
         if o["kind"] == "big-sparse":
-            msg = big_sparse_verdict(ctx, tools, ctx.scratch, "replay", o["dialect"], o.get("salt", 0))
+            msg = big_sparse_verdict(ctx, tools, ctx.scratch, "replay", o["dialect"], o.get("salt", 0), o.get("G", 1 << 32))
         elif o["kind"] == "gz":
             img = ctx.scratch / "gzreplay.sqfs"
             r = sh_t([str(tools["tar2sqfs"]), "-q", "-f", "-j", "1", str(img)], input=untok(o["archive_hex"]), env=ctx.san_env(), timeout=1800, text=False)
